@@ -9,7 +9,8 @@ RULE = ("random graphs with 1..10 vertices (edgeless, isolated vertices, paths, 
         "G(n,p)), phi in {0, 1, dyadics}, one scripted dyadic draw in [0,1) per edge in G.edges() order, including draws "
         "exactly equal to phi and (for phi=0) the draw 0.0; for graphs with <= 4 edges additionally ALL below/at/above "
         "patterns; one third of the cases are HISTORIES: 2-3 calls on the same graph object with edges added/removed in "
-        "between; input graphs carry node, edge and graph attributes and are compared (data and edge order) before/after "
+        "between; vertex labels are ints, mixed str/int or tuples/large ints in turn; a quarter of the non-star graphs have "
+        "self-loops; input graphs carry node, edge and graph attributes and are compared (data and edge order) before/after "
         "every call; non-trivial = some call with at least one edge kept and one removed; distinct by full case")
 EXHAUSTIVE = {"quick": False, "thorough": False}
 EXPLANATION = ("general theorems in Props/C18.v (components = path-connectivity, value = k/N with 1<=k<=N, phi=1, phi=0, "
@@ -78,6 +79,12 @@ def _graph(rng):
     elif kind == "two" and n >= 4:
         h = n // 2
         edges = [[i, j] for i in range(h) for j in range(i + 1, h)] + [[i, i + 1] for i in range(h, n - 1)]
+    if kind != "star" and rng.random() < 0.25:
+        # self-loops are legal edges of an nx.Graph (and the generators do produce them)
+        for _ in range(rng.randint(1, 2)):
+            v = rng.choice(nodes)
+            if [v, v] not in edges:
+                edges.insert(rng.randint(0, len(edges)), [v, v])
     return nodes, edges
 
 
@@ -128,28 +135,46 @@ def generate(rng, tier):
 
 
 def _snapshot(g):
-    return (dict(g.graph), [(v, tuple(sorted(d.items()))) for v, d in g.nodes(data=True)], sorted((min(u, v), max(u, v), tuple(sorted(d.items()))) for u, v, d in g.edges(data=True)))
+    return (dict(g.graph), [(v, tuple(sorted(d.items()))) for v, d in g.nodes(data=True)], sorted((tuple(sorted([repr(u), repr(v)])), tuple(sorted(d.items()))) for u, v, d in g.edges(data=True)))
+
+
+def _lab(case):
+    """vertex label of model index i.  labmode 0: the int itself; 1: mixed str / int labels ('hub', 's3', 4, ...);
+    2: tuples and large ints (hashable objects of other types)"""
+    mode = case.get("labmode", (len(case["nodes"]) + len(case["edges"])) % 3)
+    if mode == 1:
+        return lambda i: ("hub" if i == 0 else ("s%d" % i if i % 2 else i))
+    if mode == 2:
+        return lambda i: ((i, "t") if i % 2 else 1000 + i)
+    return lambda i: i
 
 
 def impl(case):
     import networkx as nx
     from gcmpy.tools.bond_percolate import bond_percolate
+    lab = _lab(case)
+    inv = {lab(i): i for i in set(case["nodes"]) | {v for e in case["edges"] for v in e}
+           | {v for c in case["calls"] for e in c["add"] for v in e}}
     g = nx.Graph(name="input")
     for v in case["nodes"]:
-        g.add_node(v, tag="n%d" % v)
+        g.add_node(lab(v), tag="n%d" % v)
     for i, e in enumerate(case["edges"]):
-        g.add_edge(e[0], e[1], w=i, label="e%d" % i)
+        g.add_edge(lab(e[0]), lab(e[1]), w=i, label="e%d" % i)
     outs = []
     for ci, call in enumerate(case["calls"]):
+        damaged = False
         for e in call["remove"]:
-            g.remove_edge(*e)
+            try:
+                g.remove_edge(lab(e[0]), lab(e[1]))
+            except Exception:  # noqa: BLE001 - an earlier call already took this edge out of the caller's graph
+                damaged = True
         for i, e in enumerate(call["add"]):
-            g.add_edge(e[0], e[1], w=100 * (ci + 1) + i)
-        order = [[u, v] for u, v in g.edges()]
+            g.add_edge(lab(e[0]), lab(e[1]), w=100 * (ci + 1) + i)
+        order = [[inv.get(u, 4000), inv.get(v, 4000)] for u, v in g.edges()]
         before = _snapshot(g)
         rs = [Fraction(*r) for r in call["rs"]]
         script = oracles.Script([("random", float(r)) for r in rs])
-        out = {"order": order, "nodes": list(g.nodes())}
+        out = {"order": order, "nodes": [inv.get(v, 4000) for v in g.nodes()]}
         try:
             with oracles.scripted(script):
                 v = bond_percolate(g, float(Fraction(*call["phi"])))
@@ -157,7 +182,8 @@ def impl(case):
             out["calls"] = script.pos
         except Exception as e:  # noqa: BLE001
             out["exc"] = type(e).__name__
-        out["unchanged"] = _snapshot(g) == before and [[u, v] for u, v in g.edges()] == order
+        out["unchanged"] = (not damaged) and _snapshot(g) == before and \
+            [[inv.get(u, 4000), inv.get(v, 4000)] for u, v in g.edges()] == order
         outs.append(out)
     return outs
 
@@ -256,7 +282,8 @@ def shrink(case):
 
 def describe(case, impl_obs):
     return {"nodes": case["nodes"], "edges": case["edges"], "calls": case["calls"],
-            "values": [o.get("value") for o in impl_obs] if isinstance(impl_obs, list) else impl_obs}
+            "values": [o.get("value") if isinstance(o, dict) else o for o in impl_obs]
+            if isinstance(impl_obs, list) else impl_obs}
 
 
 def histogram(cases):
